@@ -284,6 +284,13 @@ func seqObs(o *Obs, s *fileseq.FileSequence, qf, qi []int) {
 		o.Add("fmt", "err")
 	}
 	o.Add("i0", hx(s.Index(0)))
+	// paths are a function of the sequence's own components: changing a copy changes nothing here
+	if c := s.Copy(); c != nil {
+		c.SetDirname("/zz")
+		c.SetBasename("q")
+		c.SetExt(".e")
+	}
+	o.Add("i0b", hx(s.Index(0)))
 	fr := make([]string, len(qf))
 	for i, q := range qf {
 		fr[i], _ = s.Frame(q)
@@ -301,6 +308,16 @@ func seqObs(o *Obs, s *fileseq.FileSequence, qf, qi []int) {
 		fss = append(fss, p)
 	}
 	o.Add("fs", hexList(fss))
+	// a template that parses but fails while executing, after it has written text; whatever it
+	// left behind must not show up in later answers
+	_, _ = s.Format("{{dir}}{{base}}{{slice base 0 4000}}")
+	_, _ = s.Format("{{dir}}{{index base 4000}}")
+	o.Add("str2", hx(s.String()))
+	if f, err := s.Format("{{dir}}{{base}}{{frange}}{{pad}}{{ext}}"); err == nil {
+		o.Add("fmt2", hx(f))
+	} else {
+		o.Add("fmt2", "err")
+	}
 }
 
 func opSeq(f []string) string {
